@@ -224,8 +224,11 @@ impl RoutingThread {
                     .unwrap();
             }
             Message::Block(_) => {
-                error!("received block message");
-                unreachable!();
+                // blocks are fetched over http, never pushed as messages. ignore the message
+                warn!(
+                    "received block message from peer : {:?}. ignoring",
+                    peer_index
+                );
             }
         }
     }
